@@ -91,7 +91,7 @@ Definition figure_image (image caption link alt : str) (s : st) : st :=
   w (R ".FLOAT" ++ NLs ++ R ".PDF_IMAGE """ ++ roff_escape image ++ R """" ++ NLs ++ R ".CAPTION """ ++ caption ++ R """ TO_LIST" ++ [160] ++ R "FIGURES" ++ NLs ++
      R ".PDF_TARGET ""fig:" ++ dec (fig s1) ++ R """" ++ NLs ++ R ".FLOAT OFF" ++ NLs) s1.
 Definition inline_image (image link id punct alt : str) (s : st) : st :=
-  if contains_any [123; 125] image then err "path argument and label should not contain braces" s else
+  if contains_any brace_chars image then err "path argument and label should not contain braces" s else
   if negb (existsb (str_eqb image) (existing s)) then err "image not found" s else
   let s1 := if bad_ext image then err "expected .eps or .pdf" s else s in
   w (R ".PDF_IMAGE """ ++ roff_escape image ++ R """" ++ target id) s1.
